@@ -178,6 +178,10 @@ def handle (op : String) (args : List String) : Option String :=
       | some t => showExcept (serializeTag t) | none => "bad-arg"
   | "c01.tag.deser", [h] => some <| match bytes? h with
       | some h => showExceptUnit showTag (deserializeTag Tag.empty h) | none => "bad-arg"
+  | "c01.tag.refill", [h1, h2] => some <| match bytes? h1, bytes? h2 with
+      | some h1, some h2 => (match deserializeTag Tag.empty h1 with
+          | .ok t => showExceptUnit showTag (deserializeTag t h2) | .error e => "perr " ++ toString e)
+      | _, _ => "bad-arg"
   | "c01.tag.reser", [h] => some <| match bytes? h with
       | some h => (match deserializeTag Tag.empty h with
           | .ok t => showExcept (serializeTag t) | .error e => "perr " ++ toString e)
